@@ -1191,6 +1191,25 @@ impl CompileState<'_> {
 
                 all_values.push((value.clone(), v_span));
             }
+
+            // A binding pattern in an alternation would leave its variable undefined (and the
+            // arm unwrapping the wrong variant) when another alternative matches.
+            if values.len() > 1 {
+                let binding = values.iter().find(|v| {
+                    matches!(
+                        &v.inner,
+                        ExprKind::Ok(i) | ExprKind::Err(i) | ExprKind::Optional(Some(i))
+                            if matches!(i.inner, ExprKind::Identifier(_))
+                    )
+                });
+                if let Some(v) = binding {
+                    return Err(self.err(InvalidExpression(
+                        "a binding pattern cannot be combined with other patterns using `|`",
+                        v.clone(),
+                        None,
+                    )));
+                }
+            }
         }
 
         // find duplicate default arms
